@@ -153,13 +153,16 @@ def _rbk(real):
 
 @unit("C04", "_get_cpu_list", targets=[HIL + ":_get_cpu_list"], uses=["_hilbert3d.abstract", "_read_bound_key.abstract"],
       cases=[{"label": "lmax=%d,ncpu=%d,free_cube=%s" % (lm, nc, fc), "lmax": lm, "ncpu": nc, "free": fc}
-             for lm, nc, fc in ((1, 2, None), (3, 1, None), (2, 2, 0), (3, 2, 0), (3, 2, 5), (3, 3, 7))],
+             for lm, nc, fc in ((1, 2, None), (3, 1, None), (2, 2, 0), (3, 2, 0), (3, 2, 5), (3, 3, 7))] +
+            # a level cap below levelmax (C12): the search level follows lmax, the key lattice stays that of levelmax
+            [{"label": "lmax=%d,levelmax=%d,ncpu=%d,free_cube=%s" % (lm, lx, nc, fc), "lmax": lm, "levelmax": lx, "ncpu": nc, "free": fc}
+             for lm, lx, nc, fc in ((2, 3, 2, 0), (1, 3, 3, None), (2, 4, 2, 3))],
       replay=NIO.replay_selective, max_paths=3000)
 def get_cpu_list(case):
     h = M(HIL)
     del HCALLS[:]
     lmax, ncpu = case["lmax"], case["ncpu"]
-    levelmax = lmax
+    levelmax = case.get("levelmax", lmax)
     box = {}
     for c in "xyz":
         lo, hi = core.fresh_real(c + "min"), core.fresh_real(c + "max")
